@@ -1,4 +1,5 @@
 """Temperature scales: C10 (spec/Temp.tla, MC_Temp)."""
+import os
 import random
 from decimal import Decimal
 from fractions import Fraction
@@ -111,6 +112,58 @@ def compare_cases_for(v, prop, tier, seed):
     v.nontrivial += rep["stats"].get("ok", 0)
     v.add_violations([dict(x, prop=prop, key="scales:" + x["key"]) for x in rep["mm"] if x["key"].startswith("compare:")])
     v.extra["cross_scale_comparisons"] = {"cases": len(cases), "stats": rep["stats"]}
+
+
+def _reexpress_child(seed):
+    import sys
+    from core import REPO
+    sys.path.insert(0, os.path.join(REPO, "src"))
+    from decimal import Decimal
+    import measured.si as si
+    import measured.us as us
+    scales = [si.Kelvin, si.Celsius, us.Fahrenheit, us.Rankine]
+    units = scales + [si.Milli * si.Kelvin, si.Kilo * si.Celsius]
+    mags = [300, 10, -40, 0, 2.5, Decimal("25")]
+    bad, n = [], 0
+    for ua in units:
+        for ub in units:
+            if ua is ub:
+                continue
+            for ma in mags[:4]:
+                for mb in mags:
+                    a, b = ma * ua, mb * ub
+                    try:
+                        b2 = b.in_unit(ua)        # the same temperature written in a's unit
+                    except Exception:
+                        continue
+                    for op, f in (("sub", lambda x, y: x - y), ("add", lambda x, y: x + y)):
+                        n += 1
+                        try:
+                            r1, r2 = f(a, b), f(a, b2)
+                        except Exception as ex:
+                            bad.append(("scales:%s:raised:%s" % (op, type(ex).__name__), "%r %s %r" % (a, op, b)))
+                            continue
+                        x, y = float(r1.magnitude), float(r2.magnitude)
+                        scale = max(abs(float(ma)), abs(float(b2.magnitude)), 1.0)
+                        if r1.unit is not ua or abs(x - y) > 1e-9 * scale:
+                            bad.append(("scales:%s:value-depends-on-the-unit-of-the-right-operand" % op,
+                                        "%r %s %r gives %r, with the right operand written as %r it gives %r" % (a, op, b, r1, b2, r2)))
+    return {"n": n, "bad": bad}
+
+
+def arith_reexpression(v, prop, seed):
+    """C06 on offset scales: a - b and a + b do not change when b is replaced by the equal temperature written in a's
+    unit (the library's own conversion does the re-expression; C10 judges that conversion)"""
+    from core import run_isolated
+    res = run_isolated(_reexpress_child, seed)
+    v.impl += res["n"]
+    v.evaluations += res["n"]
+    v.extra["scale_arithmetic_reexpressions"] = res["n"]
+    seen = set()
+    for k, d in res["bad"]:
+        if k not in seen:
+            seen.add(k)
+            v.violations.append({"prop": prop, "key": k, "detail": d, "path": []})
 
 
 def run_c10(tier, seed):
